@@ -629,3 +629,42 @@ Section Problem2.
     rewrite (subobs_refused ls (p0 :: ps0) p q Hp) in EO; auto; [discriminate|lia].
   Qed.
 End Problem2.
+
+(* ---- conjunctions quoted verbatim by Properties/C10.v ---- *)
+Lemma subobs_spec ls ps so :
+  sub_observables ls ps = Ok so ->
+  map fst so = keys_of ls /\
+  (forall l subs_l, In (l, subs_l) so -> subs_l = map (restrict1 (omembers ls l (length ls))) ps) /\
+  forall j, j < length ps -> length (plets (nth j ps pI)) = length ls ->
+    recombine1 (length ls)
+      (map (fun e : nat * list pauli => (omembers ls (fst e) (length ls), nth j (snd e) pI)) so)
+    = plets (nth j ps pI).
+Proof.
+  intros H. split; [exact (subobs_keys ls ps so H)|]. split.
+  - intros l subs_l. exact (subobs_entries ls ps so l subs_l H).
+  - intros j. exact (subobs_tensor ls ps so j H).
+Qed.
+
+Lemma problem_refuses_spec basis_of relabel dx n ncl ncr c :
+  (forall ls obs, length ls <> n -> partition_problem basis_of relabel dx n ncl ncr c (Some ls) obs = Refused) /\
+  (forall labels ps p, labels_ok n labels -> In p ps -> length (plets p) <> n ->
+     partition_problem basis_of relabel dx n ncl ncr c labels (Some ps) = Refused) /\
+  (forall labels ps p, labels_ok n labels -> obs_sizes_ok n (Some ps) -> In p ps -> pphase p <> 0 ->
+     partition_problem basis_of relabel dx n ncl ncr c labels (Some ps) = Refused) /\
+  (forall labels obs, labels_ok n labels -> obs_sizes_ok n obs -> obs_phases_ok obs -> (ncl <> 0 \/ ncr <> 0) ->
+     partition_problem basis_of relabel dx n ncl ncr c labels obs = Refused) /\
+  (forall labels obs i, labels_ok n labels -> obs_sizes_ok n obs -> obs_phases_ok obs ->
+     In i c -> uncuttable basis_of (labels_used n c labels) i ->
+     partition_problem basis_of relabel dx n 0 0 c labels obs = Refused).
+Proof.
+  split; [intros; now apply refuses_label_count|]. split; [intros; eapply refuses_obs_size; eauto|].
+  split; [intros; eapply refuses_phase; eauto|]. split; [intros; now apply refuses_clbits|].
+  intros; eapply refuses_uncuttable; eauto.
+Qed.
+
+Lemma idle_observable_spec ls ps :
+  (forall p q, In p ps -> q < length ls -> nth q ls None = None -> nth q (plets p) 0 <> 0 ->
+     sub_observables ls ps = Refused) /\
+  ((forall p q, In p ps -> q < length ls -> nth q ls None = None -> nth q (plets p) 0 = 0) ->
+   (forall p, In p ps -> length (plets p) = length ls) -> exists so, sub_observables ls ps = Ok so).
+Proof. split; [intros p q; apply subobs_refused|apply subobs_ok]. Qed.
